@@ -1,2 +1,91 @@
-(* placeholder: theorems being added *)
-From DC Require Import Model.Base Model.MSpace.
+(* C15 - Mutation-space operations stay inside the space and cover it.
+   For every well-formed space (index = partition into contiguous choices; variants distinct and of
+   the segment's length), every member sequence and every oracle stream of random draws. *)
+From Coq Require Import ZArith Bool List Lia Sorting.Sorted String.
+From DC Require Import Model.Base Model.Loc Model.MSpace Proofs.MSpaceDefs Proofs.MSpaceA Proofs.MSpaceB Proofs.MSpaceC.
+Import ListNotations.
+Open Scope Z_scope.
+Open Scope string_scope.
+
+Theorem C15_localized_keeps_exactly_overlapping_choices : forall ms a b c,
+  wf_space ms -> 0 <= a -> a <= b ->
+  (In c (choices_list (ms_localized ms a b)) <->
+   In c (choices_list ms) /\ Z.max a (cstart c) < Z.min b (cend c)).
+Proof. exact localized_keeps_overlapping. Qed.
+Print Assumptions C15_localized_keeps_exactly_overlapping_choices.
+
+Theorem C15_all_variants : forall ms s,
+  wf_space ms -> member ms s -> (forall c, In c (choices_list ms) -> cend c <= zlen s) ->
+  multichoices ms <> [] ->
+  exists vs, all_variants ms s = Some vs /\
+    NoDup vs /\
+    hd_error vs = Some s /\
+    (forall t, In t vs <-> is_variant_of ms s t) /\
+    zlen vs = space_size_exact ms /\
+    (forall t, In t vs -> member ms t).
+Proof. exact all_variants_spec. Qed.
+Print Assumptions C15_all_variants.
+
+Theorem C15_all_variants_only_inside_span : forall ms s vs a b t i,
+  wf_space ms -> member ms s -> (forall c, In c (choices_list ms) -> cend c <= zlen s) ->
+  all_variants ms s = Some vs -> choices_span ms = Some (a, b) -> In t vs ->
+  0 <= i -> ~ (a <= i < b) -> nth_error t (Z.to_nat i) = nth_error s (Z.to_nat i).
+Proof. exact all_variants_outside_span. Qed.
+Print Assumptions C15_all_variants_only_inside_span.
+
+Theorem C15_random_mutations : forall ms n s stream s' r',
+  wf_space ms -> member ms s -> (forall c, In c (choices_list ms) -> cend c <= zlen s) ->
+  0 <= n ->
+  apply_random_mutations ms n s (mkR stream []) = Some (s', r') ->
+  valid_run stream r' ->
+  zlen s' = zlen s /\
+  member ms s' /\
+  (exists cs, NoDup cs /\ zlen cs = Z.min n (zlen (multichoices ms)) /\
+     (forall c, In c cs -> In c (multichoices ms) /\ changed c s s' /\ holds c s') /\
+     (forall c, In c (choices_list ms) -> ~ In c cs -> ~ changed c s s') /\
+     (forall i, 0 <= i -> (forall c, In c cs -> ~ (cstart c <= i < cend c)) ->
+        nth_error s' (Z.to_nat i) = nth_error s (Z.to_nat i))).
+Proof. exact apply_random_mutations_spec. Qed.
+Print Assumptions C15_random_mutations.
+
+Theorem C15_random_variant_differs : forall c s r v r',
+  random_variant c s r = Some (v, r') ->
+  In v (cvariants c) /\ v <> slice s (cstart c) (cend c).
+Proof. exact random_variant_spec. Qed.
+Print Assumptions C15_random_variant_differs.
+
+Theorem C15_constrain_sequence : forall ms s r s' r',
+  wf_space ms -> (forall c, In c (choices_list ms) -> cend c <= zlen s) ->
+  constrain_sequence ms s r = COk s' r' ->
+  member ms s' /\ zlen s' = zlen s /\
+  (forall i, 0 <= i -> nth_error s' (Z.to_nat i) <> nth_error s (Z.to_nat i) ->
+     exists c, In c (choices_list ms) /\ cstart c <= i < cend c /\ ~ holds c s) /\
+  (forall r2, constrain_sequence ms s' r2 = COk s' r2).
+Proof. exact constrain_sequence_spec. Qed.
+Print Assumptions C15_constrain_sequence.
+
+Theorem C15_space_size : forall ms,
+  (multichoices ms <> [] ->
+     space_size_exact ms = fold_right Z.mul 1 (map nvariants (multichoices ms))
+     /\ 2 ^ (zlen (multichoices ms)) <= space_size_exact ms)
+  /\ ((forall c, In c (choices_list ms) -> 0 <= nvariants c) ->
+      (space_size_exact ms = 0 <-> choices_span ms = None)).
+Proof. intro ms; split; [apply space_size_is_product | apply space_size_zero_iff_no_span]. Qed.
+Print Assumptions C15_space_size.
+
+Theorem C15_in_space_reflects_membership : forall ms t, in_space ms t = true <-> member ms t.
+Proof. exact in_space_member. Qed.
+Print Assumptions C15_in_space_reflects_membership.
+
+(* Non-vacuity: a concrete well-formed space with two multi-variant choices *)
+Definition ex_c1 := mkChoice 0 2 [[nA; nC]; [nG; nT]] false.
+Definition ex_c2 := mkChoice 3 4 [[nA]; [nC]; [nT]] false.
+Definition ex_ms := mkSpace [Some ex_c1; Some ex_c1; None; Some ex_c2].
+Example C15_ex_variants :
+  all_variants ex_ms (sq "ACGA") =
+  Some [sq "ACGA"; sq "ACGC"; sq "ACGT"; sq "GTGA"; sq "GTGC"; sq "GTGT"]
+  /\ space_size_exact ex_ms = 6 /\ choices_span ex_ms = Some (0, 4).
+Proof. vm_compute. repeat split. Qed.
+Example C15_ex_mutation :
+  option_map fst (apply_random_mutations ex_ms 2 (sq "ACGA") (mkR [[1; 0]; [0]; [0]] [])) = Some (sq "GTGC").
+Proof. vm_compute. reflexivity. Qed.
